@@ -659,6 +659,27 @@ class Machine:
                     return [relative_eq_f64(x, y, a[2][0], a[3][0])]
                 return [app('relative_eq', 'Bool', to_real(x), to_real(y), to_real(a[2][0]), to_real(a[3][0]))]
             return None
+        if trait == 'PartialOrd' and f == 'partial_cmp':
+            x = s.deref_arg(p, a[0])
+            y = s.deref_arg(p, a[1])
+            if not is_sym(x) and not is_sym(y):
+                if x != x or y != y:
+                    return [0, UNINIT]
+                return [1, -1 if x < y else (1 if x > y else 0)]
+            return ('fork', [(cmp('<', x, y), [1, -1]), (cmp('=', x, y), [1, 0]), (cmp('>', x, y), [1, 1])])
+        if trait == 'PartialOrd' and f in ('lt', 'le', 'gt', 'ge'):
+            x = s.deref_arg(p, a[0])
+            y = s.deref_arg(p, a[1])
+            op = {'lt': '<', 'le': '<=', 'gt': '>', 'ge': '>='}[f]
+            if not is_sym(x) and not is_sym(y):
+                return [{'<': x < y, '<=': x <= y, '>': x > y, '>=': x >= y}[op]]
+            return [cmp(op, x, y)]
+        if trait == 'PartialEq' and f in ('eq', 'ne'):
+            x = s.deref_arg(p, a[0])
+            y = s.deref_arg(p, a[1])
+            if not is_sym(x) and not is_sym(y):
+                return [(x == y) if f == 'eq' else (x != y)]
+            return [cmp('=' if f == 'eq' else '!=', x, y)]
         if trait == 'Rem' or f == 'rem':
             x, y = a[0][0], a[1][0]
             if conc:
@@ -921,6 +942,8 @@ class Machine:
         if s.mode == 'CONC':
             p.events.append(('PANIC',))
             return
+        if p.may_panic:
+            s.covers.setdefault('<expected panic reached>', []).append(tuple(p.pc))
         if not p.may_panic:
             s.obligations.append({'kind': 'nopanic', 'id': 'no-panic(%s)#0' % re.sub(r'[^\w:]', '_', why[:40]), 'leaf': 0, 'pc': tuple(p.pc), 'path': p.pid, 'lemma': False})
 
@@ -942,6 +965,8 @@ class Machine:
                 continue
             if forced:
                 q = p.clone()
+                if fix:
+                    fix(q)
                 live.append((q, cont))
                 continue
             q = p.clone()
@@ -1159,6 +1184,18 @@ class Machine:
                 if len(p.stack) > 40:
                     raise Fuel('call depth')
                 return 0
+            if isinstance(r, tuple) and r and r[0] == 'fork':
+                conds = []
+                for c, vals in r[1]:
+                    def fix(q, vals=vals):
+                        if dst is not None:
+                            o = s.obj(q, dst[0])
+                            if o not in q.mem:
+                                s.ensure(q, o, s.lty(q, dst[0]))
+                            s.write_place(q, dst[0], dst[1], vals)
+                    conds.append((c, (ret_bb, 0), fix))
+                s.fork(p, conds, work)
+                return None
             if dst is not None:
                 o = s.obj(p, dst[0])
                 if o not in p.mem:
